@@ -1,5 +1,5 @@
-(* Per-run instance obligation of C19 on the symbol-handling plan regenerated from execution.py (Gen/EvalOut.v). *)
-From PG Require Import Model.EvalOut Gen.EvalOut Proofs.EvalOutProofs.
+(* Per-run instance obligation of C19 on the symbol-handling plan regenerated from execution.py (Gen/EvalOutPlan.v). *)
+From PG Require Import Model.EvalOut Gen.EvalOutPlan Proofs.EvalOutProofs.
 
 Lemma generated_out_plan_ok : plan_ok out_plan = true.
 Proof. vm_compute. reflexivity. Qed.
